@@ -42,6 +42,9 @@ void p1_write(void) {
 #ifdef P3_PREFIX_REL
 #define P3_PREFIX (POLYSEED_STR_SIZE - P3_PREFIX_REL)
 #endif
+#ifdef P3_PREFIX_ABS
+#define P3_PREFIX P3_PREFIX_ABS
+#endif
 struct in_p3_lazy { struct dep_in dep; char str[P3_LEN + 1]; };
 VF_DECL(p3_lazy)
 void p3_lazy(void) {
@@ -102,7 +105,9 @@ void p4_split(void) {
     {
         unsigned p = 0;
         for (int t = 0; t < P4_NTOK; ++t) {
-            unsigned tl = P4_PATTERN == 0 ? 1 : P4_PATTERN == 1 ? 2 : P4_PATTERN == 2 ? ((t & 1) ? 3 : 1) : (unsigned)(t % 4) + 1;
+            /* pattern 4: one long token (33 bytes = longest word of any list) among one-byte tokens */
+            unsigned tl = P4_PATTERN == 0 ? 1 : P4_PATTERN == 1 ? 2 : P4_PATTERN == 2 ? ((t & 1) ? 3 : 1)
+                        : P4_PATTERN == 4 ? (t == P4_NTOK / 2 ? 33u : 1u) : (unsigned)(t % 4) + 1;
             for (unsigned k = 0; k < tl; ++k) { VASSUME(IN.s[p] != '\0' && IN.s[p] != ' '); p++; }
             if (t + 1 < P4_NTOK || P4_TRAIL) IN.s[p++] = ' ';
             if (t + 1 == P4_NTOK && P4_TRAIL == 2) IN.s[p++] = ' ';   /* two trailing separators */
